@@ -28,6 +28,7 @@ static void dm_run(Ctx& c) {
     p.build_states(pmode, ioms); p.build_hamiltonian(true);
     const double beta = m.beta; const int N = p.N; const long dim = p.dim;
     p.build_dm(beta);
+    if (c.k % 2 == 0) { p.DM->compute(); p.DM->prepare(); p.DM->compute(); p.H->compute(); p.H->prepare(); }   // repeated calls are no-ops
     c.model = m.describe(); c.canon = m.canon() + "|" + pm_name(pmode) + iomdesc.str() + stress;
     double bw = ed.E.maxCoeff() - ed.E.minCoeff();
     c.features.set("partition", pm_name(pmode)).set("stress", stress).set("N", N).set("beta_bandwidth_decade", (long)std::floor(std::log10(std::max(beta * bw, 1e-3)))).set("blocks", p.nblocks());
@@ -94,6 +95,10 @@ static void dm_run(Ctx& c) {
         if (N > 4 && i != j && !r.coin(12.0 / (N * N))) continue;
         Pomerol::QuadraticOperator A(*p.IC, *p.S, *p.H, (Pomerol::ParticleIndex)i, (Pomerol::ParticleIndex)j); A.prepare(); A.compute();
         Pomerol::EnsembleAverage EA(*p.S, *p.H, A, *p.DM); EA.prepare();
+        { Pomerol::EnsembleAverage EAcopy(EA); EAcopy.prepare(); EA.prepare();   // copy of a prepared object, prepare() again on both: nothing may change
+          c.cmp("ensemble-average-copy", "C09:ensemble-average:copy-then-prepare", EAcopy.getResult(), EA.getResult(), 1e-14 * (1 + std::abs(cd(EA.getResult()))), [&] { return "copy-constructed EnsembleAverage <c+_" + std::to_string(i) + " c_" + std::to_string(j) + "> after prepare() on the copy"; });
+          std::vector<Pomerol::EnsembleAverage> vec; vec.push_back(EA); vec.push_back(EA); vec[0].prepare();
+          c.cmp("ensemble-average-copy", "C09:ensemble-average:copy-then-prepare", vec[0].getResult(), EA.getResult(), 1e-14 * (1 + std::abs(cd(EA.getResult()))), [&] { return std::string("EnsembleAverage stored in a std::vector, prepare() on the stored copy"); }); }
         cd ref = trace(jw_quad(N, i, j));
         c.cmp("ensemble-average", std::string("C09:ensemble-average:") + (i == j ? "diag" : "offdiag"), EA.getResult(), ref, tolrel * 4 + 1e-9, [&] { return "<c+_" + std::to_string(i) + " c_" + std::to_string(j) + "> beta=" + fmt(beta) + " part=" + pm_name(pmode); });
         ++nea;
